@@ -223,11 +223,11 @@ class PathReading:
 
 
 class GuardReader:
-    def __init__(self, disp):
+    def __init__(self, disp, skip=()):
         self.d = disp
         self.facts = disp.facts
         self.b = disp.body
-        skip = set()
+        skip = set(skip)
         self.w = x_ipaths.summarize(self.b, x_ipaths.loop_free_local(self.facts, skip))
         self.readable = not self.w.overflow and bool(self.w.paths)
         self.success = []
@@ -457,6 +457,6 @@ class GuardReader:
     def lookup_on(self, p):
         """(key expression, table expression) of the table lookup on path p, with the path's own values."""
         for ev in p.events:
-            if ev[1] and ev[1].get("path") == PHF_GET and len(ev[2]) >= 2:
+            if ev[0] == "call" and ev[1] and ev[1].get("path") == PHF_GET and len(ev[2]) >= 2:
                 return ev[2][1], ev[2][0]
         return None, None
